@@ -157,6 +157,40 @@ def r3(ctx, R):
         R.bad(bo, bo.node, "cells of a deleted space keep live handles", stmt="cells.on_delete()")
     if not _space_clears_cells(ctx, bo):
         R.bad(bo, bo.node, "values computed from the deleted space's cells survive", stmt="object-level invalidation of cells")
+    R.inst("BaseSpaceImpl.on_delete: held values are discarded *including inputs*, with their dependents")
+    full = False
+    for c in q.calls(bo, name="clear_all_values"):
+        a = kw(c, "clear_input") or (c.args[0] if c.args else None)
+        if isinstance(a, ast.Constant) and a.value is True and lp and any(c is x for x in ast.walk(lp[0])):
+            full = True
+    for c in q.calls(bo, name="clear_obj"):
+        if lp and c.args and norm(c.args[0]) == norm(lp[0].target) and any(c is x for x in ast.walk(lp[0])):
+            full = True
+    for c in q.calls(bo, name="clear_all_cells", recv="self"):
+        a = kw(c, "clear_input")
+        if isinstance(a, ast.Constant) and a.value is True:
+            full = True
+    if not full:
+        R.bad(bo, bo.node, "deleting a space keeps the values other spaces computed from its *input* values "
+                           "(inputs are not cleared through the trace graph)", stmt="clear inputs on delete")
+    cs = ctx.func("DynamicBase.clear_subs_rootitems")
+    R.inst("clear_subs_rootitems: the root ItemSpace of *every* dynamic sub is discarded")
+    lps = [n for n in walk_local(cs.node) if isinstance(n, ast.For) and "_dynamic_subs" in norm(n.iter)]
+    clr = q.calls(cs, name="clear_itemspace_at")
+    if not lps or not clr or norm(clr[0].func.value) != "root.parent" or [norm(a) for a in clr[0].args] not in (
+            ["root.argvalues_if"],) and not (clr[0].args and isinstance(clr[0].args[0], ast.Name)
+                                              and [norm(v) for v in assigned_value(cs, clr[0].args[0].id)] == ["root.argvalues_if"]):
+        R.bad(cs, cs.node, "instances built from this space are not discarded through their own parent and arguments",
+              stmt="root.parent.clear_itemspace_at(root.argvalues_if)")
+    else:
+        for t, l in q.guards_of(cs, clr[0]):
+            # the only admissible skip is one keyed on the identity of the root space itself
+            if not (t.startswith("root in ") or t.startswith("root not in ") or t.startswith("id(root)")):
+                R.bad(cs, clr[0], "some instance roots are skipped (guard `%s`): an ItemSpace built from the deleted/edited "
+                                  "base survives" % t)
+        rv = assigned_value(cs, "root")
+        if not rv or norm(rv[0]) != "dynsub.rootspace":
+            R.bad(cs, cs.node, "root of a dynamic sub is not its rootspace", stmt="root =")
     do = ctx.func("DynamicSpaceImpl.on_delete")
     R.inst("DynamicSpaceImpl.on_delete: child spaces deleted and removed")
     lp = [n for n in walk_local(do.node) if isinstance(n, ast.For) and "named_spaces.values()" in norm(n.iter)]
@@ -246,6 +280,10 @@ def r4(ctx, R):
     di = [c for c in q.calls(rd, name="del_item") if call_recv(c) == "ImplDict"]
     if not ca or not di or not q.dominated(rd, ca, di[0]):
         R.bad(rd, rd.node, "values that read the deleted reference by attribute path survive", stmt="clear_attr_referrers")
+    R.inst("on_del_cells: instances built from this space are discarded (they hold a copy of the cells)")
+    cr = q.calls(oc, name="clear_subs_rootitems", recv="self")
+    if not cr or not oc.cfg.must_pass(q.nodes_for(oc, cr), oc.cfg.exit, labels=("N", "T", "F")):
+        R.bad(oc, oc.node, "an ItemSpace built with this space as base keeps the deleted cells alive", stmt="clear_subs_rootitems")
     sd = ctx.func("SpaceManager.del_cells")
     R.inst("del_cells: refuses derived, deletes, re-derives subs")
     if not q.raises(sd) or not q.calls(sd, name="on_del_cells") or not q.calls(sd, name="update_subs"):
